@@ -24,6 +24,9 @@ type LoopSpec struct {
 	Invariants []*Clause
 	Decreases  SExpr
 	Modifies   []string
+	Frame      []SExpr
+	FrameSrc   []string
+	HasFrame   bool
 }
 
 type LetDecl struct {
@@ -292,6 +295,20 @@ func (cs *Contracts) parseFile(p *Program, pkgPath, fname string, f *ast.File) e
 					return fail(err)
 				}
 				ls.Invariants = append(ls.Invariants, cl)
+			case "frame":
+				ls.HasFrame = true
+				for _, part := range splitTop(strings.TrimSpace(strings.TrimPrefix(r2, "frame")), ',') {
+					part = strings.TrimSpace(part)
+					if part == "" || part == "nothing" {
+						continue
+					}
+					e, err := parseSpecExpr(part)
+					if err != nil {
+						return fail(err)
+					}
+					ls.Frame = append(ls.Frame, e)
+					ls.FrameSrc = append(ls.FrameSrc, part)
+				}
 			case "decreases":
 				e, err := parseSpecExpr(strings.TrimPrefix(r2, "decreases"))
 				if err != nil {
